@@ -143,7 +143,13 @@ def rank_body(cfg, history, W, observe=None, single_union=False, pre_step=None, 
                 if W > 1:
                     for q in model.parameters():
                         if q.grad is not None:
-                            dist.all_reduce(q.grad)
+                            if cfg.get('ddp_via_all_gather'):
+                                # same averaging, but distinguishable from K-FAC's own all_reduce calls in the log
+                                parts = [torch.empty_like(q.grad) for _ in range(W)]
+                                dist.all_gather(parts, q.grad.contiguous())
+                                q.grad.copy_(sum(parts))
+                            else:
+                                dist.all_reduce(q.grad)
                             q.grad.div_(W)
                 pre = pre_step(rank, ev, model, p) if pre_step is not None else None
                 p.step()
